@@ -638,6 +638,26 @@ func (e *SEnv) evalCall(n *SCall) Val {
 			cs = append(cs, Eq(Select(Select(e.r.mapValHeap(e.st, m, l), ref), x), Select(Select(e.r.mapValHeap(e.old, m, l), ref), x)))
 		}
 		return specBool(Forall([]Term{x}, Implies(guard, And(cs...))))
+	case "fnb", "fni": // fnb(f, x...): the boolean (fni: integer) a func-typed value f returns for these arguments
+		// (func-typed parameters are modelled as pure functions of their arguments: funcParamCall)
+		fv := e.eval(n.Args[0])
+		if fv.T == nil || len(fv.C) != 1 {
+			sfail("%s: func-typed value expected", n.Fun)
+		}
+		as := []Term{fv.C[0]}
+		for _, a := range n.Args[1:] {
+			av := e.eval(a)
+			switch {
+			case av.T != nil && isSlice(av.T) && len(layout(elemOf(av.T))) == 1:
+				as = append(as, e.st.backingArr(av, elemOf(av.T), 0), av.C[1], av.C[2])
+			default:
+				as = append(as, av.C...)
+			}
+		}
+		if n.Fun == "fnb" {
+			return specBool(uf("fnres0_Bool", SBool, as...))
+		}
+		return specInt(uf("fnres0_Int", SInt, as...))
 	case "calls": // calls("T.F"): how many times this function body has called the contracted callee so far
 		return specInt(e.r.callsTerm(e.st, n.Args[0].(*SStrL).V))
 	case "calledwith": // calledwith("T.F", i, x): the most recent call of T.F passed x as argument i (false if never called)
